@@ -528,6 +528,13 @@ def allDistinct : List Name → Bool
 
 def endsWithStar (s : List Char) : Bool := s.getLast? == some '*'
 
+/-- after the loop (resource.rs:1025-1043): an unnamed tail `*` only warns (non-test build) and
+the text in front of it is dropped; otherwise remaining static text becomes the last segment -/
+def finishSegs (acc : List Seg) (unprocessed : List Char) (hasTail : Bool) : List Seg :=
+  (if endsWithStar unprocessed then acc
+   else if !hasTail && !unprocessed.isEmpty then .const unprocessed :: acc
+   else acc).reverse
+
 /-- `ResourceDef::parse(pattern, is_prefix, force_dynamic)` (resource.rs:971-1079) -/
 def parse (pattern : List Char) (isPrefix forceDynamic : Bool) : Except ParseErr (PatType × List Seg) :=
   if !forceDynamic && !pattern.contains '{' && !endsWithStar pattern then
@@ -536,19 +543,17 @@ def parse (pattern : List Char) (isPrefix forceDynamic : Bool) : Except ParseErr
     match parseLoop (pattern.length + 1) pattern [] false with
     | .error e => .error e
     | .ok (acc, unprocessed, hasTail) =>
-      -- `is_prefix && has_tail_segment` and the unnamed tail only warn (non-test build)
-      let acc :=
-        if endsWithStar unprocessed then acc
-        else if !hasTail && !unprocessed.isEmpty then .const unprocessed :: acc
-        else acc
-      let segs := acc.reverse
-      let names := segs.filterMap Seg.name?
-      if names.length > Consts.routerMaxDynamicSegments then .error (.panic "too many dynamic segments")
-      else if !(names.all validName) then .error (.panic "Wrong path pattern: group name")
-      else if !allDistinct names then .error (.panic "Wrong path pattern: duplicate group name")
+      -- `is_prefix && has_tail_segment` only warns (non-test build)
+      let segs := finishSegs acc unprocessed hasTail
+      if (segs.filterMap Seg.name?).length > Consts.routerMaxDynamicSegments then
+        .error (.panic "too many dynamic segments")
+      else if !((segs.filterMap Seg.name?).all validName) then
+        .error (.panic "Wrong path pattern: group name")
+      else if !allDistinct (segs.filterMap Seg.name?) then
+        .error (.panic "Wrong path pattern: duplicate group name")
       else
-        let suffix := if hasTail then Suffix.open else if isPrefix then Suffix.slashOrEos else Suffix.eos
-        .ok (.dynamic ⟨segs, suffix⟩, segs)
+        .ok (.dynamic ⟨segs, if hasTail then Suffix.open else if isPrefix then Suffix.slashOrEos else Suffix.eos⟩,
+             segs)
 
 /-- `Patterns` (pattern.rs): `IntoPatterns for Vec<T>` turns a one-element list into `Single` -/
 inductive Patterns where
